@@ -190,6 +190,12 @@ def goals_for(text, max_deg=2, limit=8, skip=("g",)):
 
 # Programs that reproduce shapes singled out while reading the code (each one exercises a shortcut).
 SEEDS = [
+    # initial blocks that are more than a list of constants
+    "x = 3\nk = x\nwhile true:\n    x = x + k\nend\n",
+    "a = 1\nx = a\na = 2\nwhile true:\n    x = x + a\nend\n",
+    "a = 2\nb = a + 1\nk = 2*b\ny = 0\nwhile true:\n    y = y + k\nend\n",
+    "a = 1\nb = a\na = 2\ny = 0\nwhile true:\n    y = y + a + 10*b\nend\n",
+    "x = Bernoulli(1/2)\nk = 2*x + 1\ny = 0\nwhile true:\n    y = y + k\n    x = x + 1\nend\n",
     # delayed constant chain (acyclic solver, zero-coefficient chains)
     "x = 0\ny = 0\nwhile true:\n    y = x\n    x = 1\nend\n",
     "x = 0\ny = 0\nz = 0\nwhile true:\n    z = y\n    y = x\n    x = x + 1\nend\n",
